@@ -15,6 +15,12 @@ static uint32_t nv_nondet_uint32_t(void) { uint32_t x; return x; }
 /* erased numerics (vectors, matrices, Eigen expressions): a unit type; every operation on it is dropped */
 struct nv_opaque { char nv_unit; };
 static struct nv_opaque nv_opaque_value(void) { struct nv_opaque x; return x; }
+/* floating -> int64 conversion: defined by C/C++ iff the value is finite and its truncation is representable,
+ * i.e. -2^63 <= x < 2^63.  CBMC's built-in conversion check is stricter (it also flags x == -2^63), so the printer emits
+ * this macro for such casts: the obligation is the exact definedness condition, and the boundary value is converted
+ * without going through the built-in check. */
+#define NV_F2I64(x) (__CPROVER_assert((x) == (x) && (x) >= -9223372036854775808.0 && (x) < 9223372036854775808.0, "floating-point to int64 conversion is defined (finite, -2^63 <= x < 2^63)"), \
+                     (((x) == -9223372036854775808.0) ? INT64_MIN : (int64_t)(x)))
 #define NV_FINITE(x) ((x) == (x) && (x) - (x) == 0.0)
 /* same double value (NaN equals NaN): used where a contract says "the stored value is the observed one" */
 #define NV_SAME(a, b) ((a) == (b) || ((a) != (a) && (b) != (b)))
